@@ -234,6 +234,15 @@ def clauseLoc (fo : FamObs) (l : LocObs) : Option String :=
   else if lookupNet l.net fo.lim3 != some ((l.paths.map (·.lpid)).take 3) then some "addpath-list-not-a-prefix"
   else none
 
+/-- a list of usable paths judged by itself: it is ranked and its head is not beaten -/
+def checkShownRanked (x : Ctx) (net : Net) (shown : List (Nat × Nat)) : Option String :=
+  match shown.mapM (fun i => x.key net.t2 i.1 i.2) with
+  | some ks =>
+      if (match ks with | k :: _ => ks.any (fun e => beats e k) | [] => false) then some "api-list-best-is-beaten"
+      else if !ranked ks then some "api-list-order-differs-from-ranking"
+      else none
+  | none => some "unknown-reference"
+
 /-- "shown by the API", ListPath of the global table without filtered paths: the usable paths appear
     in the order of the ranking -/
 def clauseShown (x : Ctx) (m : NhMap) (dfr : Bool) (fo : FamObs) (d : Net × List DEntry) : Option String :=
@@ -243,9 +252,10 @@ def clauseShown (x : Ctx) (m : NhMap) (dfr : Bool) (fo : FamObs) (d : Net × Lis
     | none => []
   -- without `enable_filtered` exactly the paths that passed import policy are listed, in list order
   if optList (lookupNet d.1 fo.nofilt) != d.2.filter (fun e => !e.filtered) then some "api-list-is-not-the-unfiltered-paths"
-  -- (while route selection is deferred there is no ranking to compare with; the list order is
-  -- judged when the deferral ends, which does not reorder anything)
-  else if dfr || shown == ranking then none else some "api-list-order-differs-from-ranking"
+  -- while route selection is deferred the Loc-RIB dump gives no ranking to compare with: the list is
+  -- judged by itself
+  else if dfr then checkShownRanked x d.1 shown
+  else if shown == ranking then none else some "api-list-order-differs-from-ranking"
 
 def isRsClient (c : Case) (src : Nat) : Bool :=
   match c.srcs[src]? with
